@@ -299,9 +299,14 @@ Definition entry (sel : Z) (toks : list Z) : list Z :=
                eBool (if role =? 2 then law_order its ts compare_task (uniform_idx its) m
                       else law_order its ts by_time_uid true m)
            | None => bad_input end
-  | 114 => match run_dec (let* its := dItems in let* ts := dLayout (dTable (length its)) in
-                          let* m := dMat (length its) in ret (its, ts, m)) toks with
-           | Some (its, ts, m) => eBool (law_task_order_full its ts m) | None => bad_input end
+  (* 114: asymmetry + totality of TaskOrderFn (never signed); 124: negative
+     transitivity (the only clause the CompareTask finding can explain) *)
+  | 114 | 124 =>
+      match run_dec (let* its := dItems in let* ts := dLayout (dTable (length its)) in
+                     let* m := dMat (length its) in ret (its, ts, m)) toks with
+      | Some (its, ts, m) =>
+          eBool (if sel =? 114 then law_task_order_asym_total its ts m else law_task_order_negtrans its ts m)
+      | None => bad_input end
   | 106 => match run_dec (let* its := dItems in
                           let* vt := dLayout (dTable (length its)) in
                           let* qt := dLayout (dTable (length its)) in
@@ -333,7 +338,7 @@ Definition entry (sel : Z) (toks : list Z) : list Z :=
      distinguishing comparator, then creation time / UID), the victim order is the
      victim comparator else the reversed queue order, the pop order is a permutation.
      117: strict weak order on ALL triples, total on distinct UIDs, pop order sorted *)
-  | 116 | 117 =>
+  | 116 | 117 | 118 =>
       match run_dec (let* i := dRQI in let* t1 := dZ in let* m := dMat (length (ri_qs i)) in
                      let* t2 := dZ in let* vm := dMat (length (ri_qs i)) in
                      let* t3 := dZ in let* out := dList dZ in ret (i, m, vm, out)) toks with
@@ -353,12 +358,22 @@ Definition entry (sel : Z) (toks : list Z) : list Z :=
                       same_multiset out (map i_id its))
           else
             let ne (a b : item) := negb (i_id a =? i_id b) in
-            eBool (swo_b its m && total_b its m && law_sorted m outs &&
-                   (* the VictimQueueOrderFn answers (reflexive on the diagonal by
-                      construction): on DIFFERENT queues exactly one direction, and
-                      transitive on all triples of different queues *)
-                   all2 its (fun a b => implb (ne a b) (Bool.eqb (vm a b) (negb (vm b a)))) &&
-                   all3 its (fun a b d => implb (ne a b && ne b d && ne a d && vm a b && vm b d) (vm a d)))
+            if sel =? 117
+            then
+              (* what NO known finding can excuse: asymmetry and totality of the queue
+                 order; the pop order sorted under the implementation's own answers
+                 whenever those ARE a strict weak order on the set; exactly one
+                 direction of the victim order on two different queues *)
+              eBool (asym_b its m && total_b its m &&
+                     implb (swo_b its m) (law_sorted m outs) &&
+                     all2 its (fun a b => implb (ne a b) (Bool.eqb (vm a b) (negb (vm b a)))))
+            else
+              (* 118: negative transitivity of the queue order and transitivity of the
+                 victim order on different queues - the clauses a subtree tie / a depth
+                 tie explains; the harness signs a failure only if every violating
+                 triple contains a pair that exhibits the mechanism *)
+              eBool (negtrans_b its m &&
+                     all3 its (fun a b d => implb (ne a b && ne b d && ne a d && vm a b && vm b d) (vm a d)))
       | None => bad_input end
   | 107 => match run_dec (let* mode := dZ in let* before := dList dZ in let* o := dOp in
                           let* ret_ := dOpt dZ in let* after := dList dZ in
